@@ -148,6 +148,16 @@ def _mrecv(ev):
     return r
 
 
+def _is_queue(t, table, name):
+    """the queue of the requested name: busNames[name] or
+    busNames.get(name[, None])"""
+    if t == ('sub', table, name):
+        return True
+    return kind(t) == 'call' and kind(t[2]) == 'attr' and \
+        t[2][2] == 'get' and t[2][1] == table and t[3] and \
+        t[3][0] == name and (len(t[3]) == 1 or t[3][1] == NONE)
+
+
 def _atom(c, rq):
     """Map a test of dbus_RequestName to an atom by provenance."""
     selft = ('param', 'self')
@@ -157,10 +167,15 @@ def _atom(c, rq):
     if kind(c) == 'cmp' and c[1] in ('not in', 'in') and c[2] == name and \
             c[3] == table:
         return 'EXISTS', c[1] == 'in'
-    queue_head = ('sub', ('sub', table, name), C(0))
+    is_head = lambda x: kind(x) == 'sub' and x[2] == C(0) and \
+        _is_queue(x[1], table, name)
+    # name absent: busNames.get(name) is None
+    if kind(c) == 'cmp' and c[1] in ('is', 'is not') and c[3] == NONE and \
+            _is_queue(c[2], table, name) and kind(c[2]) == 'call':
+        return 'EXISTS', c[1] == 'is not'
     if kind(c) == 'cmp' and c[1] in ('is', 'is not', '==', '!=') and \
-            queue_head in (c[2], c[3]):
-        other = c[3] if c[2] == queue_head else c[2]
+            (is_head(c[2]) or is_head(c[3])):
+        other = c[3] if is_head(c[2]) else c[2]
         if contains(other, lambda x: kind(x) == 'attr' and
                     x[2] == 'clients'):
             return 'IS_OWNER', c[1] in ('is', '==')
@@ -170,11 +185,11 @@ def _atom(c, rq):
                 not contains(c, lambda x: kind(x) == 'cmp'):
             return nm, True
     if kind(c) == 'sub' and kind(c[1]) == 'attr' and c[1][2] == 'busNames' \
-            and c[1][1] == queue_head and c[2] == name:
+            and is_head(c[1][1]) and c[2] == name:
         return 'OWNER_ALLOWS', True
     # membership of the caller in the queue (duplicate guard)
     if kind(c) == 'cmp' and c[1] in ('in', 'not in') and \
-            c[3] == ('sub', table, name):
+            _is_queue(c[3], table, name):
         return 'QUEUED', c[1] == 'in'
     return None
 
@@ -208,11 +223,11 @@ def request_table(ctx):
         for ev in iter_events(p.trace):
             if ev[0] == 'setsub' and ev[1] == table and ev[2] == name:
                 effect = 'head'
-            if ev[0] == 'setsub' and ev[1] == ('sub', table, name) and \
+            if ev[0] == 'setsub' and _is_queue(ev[1], table, name) and \
                     ev[2] == C(0):
                 effect = 'head'         # queue[0] = caller
             if ev[0] == 'call' and kind(ev[1][2]) == 'attr' and \
-                    ev[1][2][1] == ('sub', table, name):
+                    _is_queue(ev[1][2][1], table, name):
                 if ev[1][2][2] == 'insert' and ev[1][3] and \
                         ev[1][3][0] == C(0):
                     effect = 'head'
@@ -220,7 +235,7 @@ def request_table(ctx):
                     effect = 'queued'
                 if ev[1][2][2] == 'remove' and effect == 'absent':
                     effect = 'absent'
-            if ev[0] == 'mutate' and _mrecv(ev) == ('sub', table, name) \
+            if ev[0] == 'mutate' and _is_queue(_mrecv(ev), table, name) \
                     and ev[2] == 'append':
                 effect = 'queued'
         if atoms.get('IS_OWNER'):
@@ -262,16 +277,16 @@ def request_table(ctx):
     for atoms, code, effect, unknown, p in rows:
         for ev in iter_events(p.trace):
             is_ins = (ev[0] == 'call' and kind(ev[1][2]) == 'attr' and
-                      ev[1][2][1] == ('sub', table, name) and
+                      _is_queue(ev[1][2][1], table, name) and
                       ev[1][2][2] in ('append', 'insert')) or (
-                ev[0] == 'mutate' and _mrecv(ev) == ('sub', table, name)
+                ev[0] == 'mutate' and _is_queue(_mrecv(ev), table, name)
                 and ev[2] == 'append')
             if is_ins:
                 meth = ev[2] if ev[0] == 'mutate' else ev[1][2][2]
                 guarded = atoms.get('QUEUED') is False
                 # removal of the caller before the insertion also works
                 removed = any(e[0] == 'call' and kind(e[1][2]) == 'attr' and
-                              e[1][2][1] == ('sub', table, name) and
+                              _is_queue(e[1][2][1], table, name) and
                               e[1][2][2] == 'remove'
                               for e in iter_events(p.trace))
                 ctx.ob('C13.D4', rq.qualname, 'insert-guarded:%s'
